@@ -170,4 +170,16 @@ PROPS = {
         "assumptions": ["spec-valid = accepted by the specification decoder / libwebp; predictor modes 14 and 15 are outside the specification (the code leaves such blocks unpredicted, libwebp predicts opaque black): recorded, not claimed"],
         "partial": ["whole-stream refinement (decode_image_data, HuffmanTree two-level tables, chunked overlapping copies, transform drivers) is validated by the three-way correspondence, not proved"],
     },
+    "C04": {
+        "technique": "Lean 4 stage-inverse theorems on a complete byte-exact model of encode_frame + round trip through three decoders (Lean specification decoder, this crate, libwebp) on generated images",
+        "level_text": "Theorems for all inputs: dimensions 0 / above 16384 are rejected and nothing else is; subtract-green and the encoder's predictor scheme are undone per channel by the specification's inverses; run tokenisation is lossless for every pixel sequence and never emits a run above 4096; for EVERY run length 1..4096 the (symbol, extra bits) written decode by the specification's LZ77 prefix rule to that length, with a legal length symbol. The model Enc.encodeFrame covers the whole function (expansion per colour type, transforms, run detection, frequency seeding, write_huffman_tree with both shortcuts and max_symbol, packed multi-code writes, the 64-bit BitWriter) and equals the real encode_frame byte for byte on every generated image; the bit-level round trip (codes from C14, serialised trees) is established by execution on every run: the Lean specification decoder applied to the model's bytes, this crate's decoder and libwebp applied to the real bytes all return the input, for 4 colour types x predictor on/off x sizes incl. 16384x1, 1x16384, 9000x2 x nine content families (runs of exactly 4095/4096/4097/8193, Fibonacci-skewed histograms forcing the 15-bit limit, single code length ...); plus WebPEncoder::encode with metadata.",
+        "level_note": "Trusted: Lean kernel + standard axioms; the composition of the stage theorems into one bit-level round-trip theorem is not done (the specification decoder's loops are not proof-friendly yet); libwebp and the Lean specification decoder are the arbiters of 'decodes to the input'.",
+        "design_ref": "DESIGN.md section 4, C04",
+        "trusted_base": COMMON_TB + [
+            "modelled, not verified: encoder.rs encode_frame, write_huffman_tree, write_single_entry_huffman_tree, length_to_symbol, count_run/write_run, BitWriter (all of it), build_huffman_tree (C14's model)",
+            "specification: VP8L.decode (Spec/Lossless.lean) and its kernels; libwebp WebPDecodeRGBA",
+        ],
+        "assumptions": ["data.len() = width*height*bytes_per_pixel (the encoder asserts it; a mismatch is a documented panic)"],
+        "partial": ["the bit-level composition (prefix-free codes decode, tree serialisation read back) is validated by execution through three decoders, not proved"],
+    },
 }
